@@ -668,6 +668,21 @@ def check_total(rep, repo, base, roots):
                               % (f.qualname, short(s, 60)), f.mod, s)
     if n_resp < 3:
         raise AnalysisError('render paths: only %d Response construction(s) found' % n_resp)
+    # every path of a renderer entry point hands back a response: no falling off the end, no bare / None return
+    from .common import cfg_of
+    for f in roots:
+        if f.cls is not None and f.cls.name == 'ClasticJSONEncoder':
+            continue
+        rets = returns_of(f)
+        cfg = cfg_of(f)
+        falls = cfg.exit in cfg.reach([cfg.entry], avoid=set(cfg.nodes_of_all(rets)), normal_only=True)
+        empty = [r for r in rets if r.value is None or (isinstance(r.value, ast.Constant) and r.value.value is None)]
+        ok = not falls and not empty and bool(rets)
+        rep.check('R17.i', fkey(f, 'returns a response'), ok,
+                  'every path ends in a return of a response (%d) or the documented raise' % len(rets) if ok else
+                  '%s %s: the application gets None instead of a response (a 500)'
+                  % (f.qualname, 'can fall off the end' if falls or not rets else 'returns None (%s; conditions: %s)'
+                     % (short(empty[0], 30), '; '.join(cond_texts(conds(f, empty[0]))) or 'none')), f.mod, empty[0] if empty else f.node)
     simple = repo.mod(SIMPLE)
     br = simple.cls('BasicRender')
     n_reject = 0
@@ -975,3 +990,174 @@ def check_negotiation(rep, repo, base):
                           'the default mime replaces only a negotiation result that is absent / not served' if ok else
                           'the default mime is not the last resort (conditions of %s: %s): it can replace what the format parameter or '
                           'the Accept header asked for' % (short(lf.value, 50), '; '.join(cond_texts(lf.conds)) or 'none'), mod, lf.stmt)
+
+
+# ---------------------------------------------------------------------------------------------- R17.l: JSON bodies
+def check_json_bodies(rep, repo, base):
+    """R17.l: the streaming and the non-streaming JSON body, and the JSON inside a JSONP body, are all produced by the one
+    encoder the renderer built for itself (``self.json_encoder``: its options and its dev-mode fallback are what R17.d
+    checks), applied to the endpoint result itself; a JSONP body is ``<callback>(`` + that JSON + ``)``, the callback being
+    this request's callback parameter, and is only built when there is one."""
+    from ..effects import Flow
+    from ..astutil import argn
+    simple = repo.mod(SIMPLE)
+    rep.rule('R17.l', 'every JSON body (streaming, non-streaming, inside JSONP) is self.json_encoder applied to the endpoint result; '
+                      'a JSONP body is callback + "(" + JSON + ")" and is built only when the request names a callback')
+    n = 0
+    for q in ('JSONRender.__call__', 'JSONPRender.__call__'):
+        f = simple.func(q)
+        fl = Flow(f)
+        ps = _request_params(f)
+        if not ps:
+            raise AnalysisError('%s takes no endpoint result' % q)
+        ctx = 'context' if 'context' in ps else ps[-1]
+
+        def json_part(expr, at, depth=0):
+            """'stream' / 'whole' when every value flowing into expr is the renderer's encoder applied to the context;
+            else (None, offending leaf)."""
+            kinds = set()
+            for lf in fl.leaves(expr, at):
+                v = lf.value
+                if lf.opaque:
+                    return None, v
+                if isinstance(v, (ast.List, ast.Tuple)) and len(v.elts) == 1 and not isinstance(v.elts[0], ast.Starred):
+                    v = v.elts[0]
+                    whole = True
+                else:
+                    whole = False
+                if not (isinstance(v, ast.Call) and isinstance(v.func, ast.Attribute) and v.func.attr in ('encode', 'iterencode')
+                        and len(v.args) == 1 and not v.keywords):
+                    return None, lf.value
+                if whole and v.func.attr != 'encode':
+                    return None, lf.value
+                if norm(fl.resolve(v.func.value, lf.stmt)) != 'self.json_encoder':
+                    return None, lf.value
+                if norm(fl.resolve(v.args[0], lf.stmt)) != ctx or fl.defs.get(ctx):
+                    return None, lf.value
+                kinds.add('whole' if v.func.attr == 'encode' else 'stream')
+            return (kinds or None), None
+
+        def flatten(e, at):
+            """Items of the iterable a JSONP body is chained from: ('const', str) / ('expr', node) / ('json', kinds) /
+            ('bad', node)."""
+            if isinstance(e, ast.Call) and norm(e.func) in ('itertools.chain', 'chain') and not e.keywords:
+                out = []
+                for a in e.args:
+                    out.extend(flatten(a, at))
+                return out
+            if isinstance(e, ast.BinOp) and isinstance(e.op, ast.Add):
+                return flatten(e.left, at) + flatten(e.right, at)
+            if isinstance(e, (ast.List, ast.Tuple)) and not any(isinstance(x, ast.Starred) for x in e.elts):
+                k, _ = json_part(e, at) if len(e.elts) == 1 else (None, None)
+                if k:
+                    return [('json', k)]
+                out = []
+                for x in e.elts:
+                    out.extend(pieces(x, at))
+                return out
+            if isinstance(e, ast.Call) and isinstance(e.func, ast.Name) and e.func.id in ('list', 'tuple', 'iter') and len(e.args) == 1 \
+                    and not e.keywords:
+                return flatten(e.args[0], at)
+            k, bad = json_part(e, at)
+            if k:
+                return [('json', k)]
+            if isinstance(e, ast.Name):
+                lvs = fl.leaves(e, at)
+                if len(lvs) == 1 and not lvs[0].opaque and lvs[0].value is not e:
+                    return flatten(lvs[0].value, lvs[0].stmt)
+            return [('bad', bad if bad is not None else e)]
+
+        def pieces(x, at):
+            """One element of a chained list: text constants and the expressions concatenated with them."""
+            if isinstance(x, ast.BinOp) and isinstance(x.op, ast.Add):
+                return pieces(x.left, at) + pieces(x.right, at)
+            try:
+                c = base._fold_const(repo, f, x)
+            except Exception:
+                c = None
+            if isinstance(c, str):
+                return [('const', c)]
+            return [('expr', x)]
+
+        for c in walk_body(f.node):
+            if not (isinstance(c, ast.Call) and base._is_response(simple, c)):
+                continue
+            at = stmt_of(simple, c)
+            mt = base._fold_const(repo, f, argn(c, 'mimetype', 3))
+            body = argn(c, 'response', 0)
+            if body is None:
+                continue
+            n += 1
+            if mt == 'application/json':
+                k, bad = json_part(body, at)
+                rep.check('R17.l', fkey(f, 'json body of %s' % short(c, 50)), bool(k),
+                          'the body is self.json_encoder applied to %s (%s)' % (ctx, ', '.join(sorted(k or []))) if k else
+                          '%s: the application/json body can be %s, which is not the renderer\'s own encoder (self.json_encoder.encode / '
+                          '.iterencode) applied to the endpoint result %s: that path bypasses the encoder\'s conversions, options and '
+                          'dev-mode fallback' % (q, short(bad, 60), ctx), simple, c)
+            elif mt == 'application/javascript':
+                items = flatten(body, at)
+                bad = [x for kind, x in items if kind == 'bad']
+                js = [i for i, (kind, x) in enumerate(items) if kind == 'json']
+                ok, why = True, ''
+                if bad:
+                    ok, why = False, 'part of the body (%s) is neither text nor the renderer\'s encoder applied to %s' % (short(bad[0], 50), ctx)
+                elif len(js) != 1:
+                    ok, why = False, 'the body holds %d JSON part(s), expected exactly one' % len(js)
+                else:
+                    pre, post = items[:js[0]], items[js[0] + 1:]
+                    exprs = [x for kind, x in pre if kind == 'expr']
+                    if len(exprs) != 1 or not _query_param_read(fl, f, exprs[0], at):
+                        ok, why = False, 'the text before the JSON does not consist of this request\'s callback parameter and "("'
+                    else:
+                        idx = [i for i, (kind, x) in enumerate(pre) if kind == 'expr'][0]
+                        before = ''.join(x for kind, x in pre[:idx])
+                        after = ''.join(x for kind, x in pre[idx + 1:])
+                        tail = ''.join(x for kind, x in post) if all(kind == 'const' for kind, x in post) else None
+                        if before.strip() not in ('', '/**/') or after.strip() != '(':
+                            ok, why = False, 'the padding before the JSON is %r <callback> %r, expected <callback> "("' % (before, after)
+                        elif tail is None or tail.strip() not in (')', ');'):
+                            ok, why = False, 'the padding after the JSON is %s, expected ")"' % ('%r' % tail if tail is not None else 'not constant')
+                        else:
+                            cs = list(fl.conds(at))
+                            present = any(_present_tested(t, p) is not None and _query_param_read(fl, f, _present_tested(t, p), at) for t, p in cs)
+                            if not present:
+                                ok, why = False, 'the padded body is built although the request may carry no callback (conditions: %s)' \
+                                    % ('; '.join(cond_texts(cs)) or 'none')
+                rep.check('R17.l', fkey(f, 'jsonp body of %s' % short(c, 50)), ok,
+                          'the body is <callback>( + self.json_encoder applied to %s + ), built only when the request names a callback' % ctx
+                          if ok else '%s: %s' % (q, why), simple, c)
+        # the plain-JSON continuation of the JSONP renderer gets the endpoint result itself
+        for r in returns_of(f):
+            v = r.value
+            if isinstance(v, ast.Call) and isinstance(v.func, ast.Attribute) and v.func.attr == '__call__' and \
+                    isinstance(v.func.value, ast.Call) and norm(v.func.value.func) == 'super':
+                ok = len(v.args) == 1 and not v.keywords and norm(fl.resolve(v.args[0], r)) == ctx and not fl.defs.get(ctx)
+                rep.check('R17.l', fkey(f, 'plain JSON without a callback'), ok,
+                          'without a callback the endpoint result is rendered as plain JSON' if ok else
+                          '%s hands %s to the plain JSON renderer, not the endpoint result %s' % (q, short(v, 50), ctx), simple, r)
+    if n < 2:
+        raise AnalysisError('JSON renderers: the Responses carrying the JSON / JSONP bodies were not found')
+    # the dispatch of the basic renderer hands the endpoint result itself to the renderer it picked
+    sr = simple.func('BasicRender._serialize_to_resp')
+    fl = Flow(sr)
+    ps = _request_params(sr)
+    ctx = 'context' if 'context' in ps else (ps[0] if ps else None)
+    n_d = 0
+    for c in walk_body(sr.node):
+        if not (isinstance(c, ast.Call) and isinstance(c.func, (ast.Attribute, ast.Name))):
+            continue
+        at = stmt_of(simple, c)
+        callee = norm(fl.resolve(c.func, at))
+        if callee not in ('self.json_render', 'self.tabular_render'):
+            continue
+        n_d += 1
+        a0 = c.args[0] if c.args and not isinstance(c.args[0], ast.Starred) else next((k.value for k in c.keywords if k.arg == 'context'), None)
+        ok = a0 is not None and norm(fl.resolve(a0, at)) == ctx and not fl.defs.get(ctx)
+        rep.check('R17.l', fkey(sr, 'argument of %s' % callee), ok,
+                  '%s renders the endpoint result itself' % callee if ok else
+                  '%s is handed %s, not the endpoint result %s as the endpoint returned it%s'
+                  % (callee, short(a0, 40) if a0 is not None else 'nothing', ctx, ' (%s is re-bound in _serialize_to_resp)' % ctx if fl.defs.get(ctx) else ''),
+                  simple, c)
+    if not n_d:
+        raise AnalysisError('_serialize_to_resp: the calls of json_render / tabular_render were not found')
